@@ -50,6 +50,9 @@ func wideByID(id int) []byte {
 	if dup >= n {
 		dup = -1
 	}
+	if id%4 == 0 { // at or next to the member where the name set changes its representation
+		dup = -2 - (id/4)%3
+	}
 	return wideObject(newRng(uint64(id), 77), n, id%2 == 1, dup, id%3 == 0)
 }
 
@@ -1115,7 +1118,7 @@ func c08Exec(c *arshalCase) {
 		// more than 64 members (the name set switches to a map) with the first or last name repeated,
 		// at a position held by a raw value, an untyped value, a map, or skipped as unknown
 		n := 60 + r.IntN(20)
-		w := wideObject(r, n, r.IntN(2) == 0, []int{0, n - 1, r.IntN(n)}[r.IntN(3)], r.IntN(2) == 0)
+		w := wideObject(r, n, r.IntN(2) == 0, []int{0, n - 1, r.IntN(n), -2, -3, -4}[r.IntN(6)], r.IntN(2) == 0)
 		td = &tdesc{K: "struct", Fields: []fdesc{{Go: "D", T: &tdesc{K: "raw"}}, {Go: "X", T: &tdesc{K: "any"}},
 			{Go: "M", T: &tdesc{K: "map", Key: &tdesc{K: "string"}, Elem: &tdesc{K: "int"}}}, {Go: "K", T: &tdesc{K: "int"}}}}
 		t = buildType(td)
